@@ -81,6 +81,8 @@ func c04Gen(t *rapid.T) c04Case {
 
 func c04Dump(md intoto.Metadata, dir, name string) (string, error) {
 	p := filepath.Join(dir, name)
+	// something longer is lying there from an earlier run
+	_ = os.WriteFile(p, []byte(`{"signed": {"_type": "link", "name": "earlier"}, "signatures": [], "padding": "`+strings.Repeat("earlier run ", 20000)+`"}`), 0o644)
 	return p, md.Dump(p)
 }
 
